@@ -595,7 +595,8 @@ impl Prop for P {
         stats.add("max_groupings_of_one_configuration", maxg);
         let _ = std::fs::remove_dir(target_dir().join("c19tmp"));
         let distinct: BTreeSet<&String> = s.all.iter().collect();
-        vec![(
+        let stress = parallel_stress(_tier, stats);
+        vec![stress, (
             "schedules_exercised".to_string(),
             true,
             format!(
@@ -604,4 +605,87 @@ impl Prop for P {
             ),
         )]
     }
+}
+
+/// Many small batches, many workers, NO seeded delays: the seeded delays of the hook spread the
+/// workers out in time (good for reaching different groupings, bad for hitting a window of a few
+/// nanoseconds), so races between workers that start at the same instant need runs without them.
+/// 600 distinct keys, hundreds of batches per run; the output must hold exactly the input (for
+/// maps with their values) and, being free of repeats, be byte-identical to the sorted build.
+fn parallel_stress(tier: Tier, stats: &mut Stats) -> (String, bool, String) {
+    let name = "unperturbed_parallel_stress".to_string();
+    let bin = match fst_bin() {
+        Ok(b) => b,
+        Err(e) => return (name, false, e),
+    };
+    let budget = std::time::Duration::from_secs(match tier { Tier::Quick => 25, Tier::Thorough => 120, Tier::Wide => 60 });
+    let t0 = std::time::Instant::now();
+    let base = target_dir().join("c19stress");
+    let _ = std::fs::remove_dir_all(&base);
+    std::fs::create_dir_all(&base).unwrap();
+    let mut rng = Rng::new(0xC19);
+    let nkeys = 600usize;
+    let mut rows: Vec<(Vec<u8>, u64)> = (0..nkeys).map(|i| (format!("k{:05}", i * 7 % 100_003).into_bytes(), (i as u64 * 2_654_435_761) % 1_000_003)).collect();
+    rows.sort();
+    rows.dedup_by(|a, b| a.0 == b.0);
+    let sorted_rows = rows.clone();
+    let configs: [(u64, u64, u64); 4] = [(2, 2, 16), (4, 3, 16), (10, 5, 8), (3, 2, 4)];
+    let (mut runs, mut bad, mut first_bad) = (0u64, 0u64, String::new());
+    'outer: for round in 0.. {
+        for (ci, &(batch, fd, threads)) in configs.iter().enumerate() {
+            for mode in ["set", "sum"] {
+                if t0.elapsed() > budget || (tier == Tier::Quick && runs >= 200) {
+                    break 'outer;
+                }
+                // a new order of the rows for every run
+                for i in (1..rows.len()).rev() {
+                    let j = rng.range(0, i);
+                    rows.swap(i, j);
+                }
+                let dir = base.join(format!("r{}_{}_{}", round, ci, mode));
+                std::fs::create_dir_all(&dir).unwrap();
+                let mut buf = Vec::new();
+                for (k, v) in &rows {
+                    buf.extend_from_slice(k);
+                    if mode != "set" {
+                        buf.extend_from_slice(format!(",{}", v).as_bytes());
+                    }
+                    buf.push(b'\n');
+                }
+                let inp = if mode == "set" { "in.txt" } else { "in.csv" };
+                std::fs::write(dir.join(inp), &buf).unwrap();
+                let args: Vec<String> = vec![
+                    (if mode == "set" { "set" } else { "map" }).to_string(), "--batch-size".into(), batch.to_string(), "--fd-limit".into(), fd.to_string(),
+                    "--threads".into(), threads.to_string(), "--force".into(), inp.to_string(), "out.fst".into(),
+                ];
+                let (code, stderr) = run_fst(&bin, &dir, &args, None);
+                runs += 1;
+                let mut b = raw::Builder::memory();
+                for (k, v) in &sorted_rows {
+                    b.insert(k, if mode == "set" { 0 } else { *v }).unwrap();
+                }
+                let want = b.into_inner().unwrap();
+                let got = std::fs::read(dir.join("out.fst")).unwrap_or_default();
+                if code != Some(0) || got != want {
+                    bad += 1;
+                    if first_bad.is_empty() {
+                        let nk = raw::Fst::new(got.clone()).map(|f| f.len()).unwrap_or(0);
+                        first_bad = format!(
+                            "fst {} --batch-size {} --fd-limit {} --threads {} on {} distinct shuffled keys k00000.. (no seeded delays): exit {:?} {}, output has {} keys and {} bytes, the sorted build {} keys and {} bytes",
+                            if mode == "set" { "set" } else { "map" }, batch, fd, threads, sorted_rows.len(), code, one_line(&stderr), nk, got.len(), sorted_rows.len(), want.len()
+                        );
+                    }
+                }
+                let _ = std::fs::remove_dir_all(&dir);
+            }
+        }
+    }
+    let _ = std::fs::remove_dir_all(&base);
+    stats.add("stress_runs_without_seeded_delays", runs);
+    let detail = if bad == 0 {
+        format!("{} unperturbed runs (600 distinct keys; batch/fd/threads 2/2/16, 4/3/16, 10/5/8, 3/2/4; set and map) all byte-identical to the sorted build", runs)
+    } else {
+        format!("{} of {} unperturbed runs differ from the sorted build; failing input: {}", bad, runs, first_bad)
+    };
+    (name, bad == 0, detail)
 }
